@@ -837,6 +837,11 @@ func cmdCheck(args []string) int {
 		if *tier == "thorough" {
 			budget = "90s"
 		}
+		if len(newViol) >= 6 {
+			// many signatures at once (one root cause seen through many inputs):
+			// the first six are minimised thoroughly, the rest briefly
+			budget = "2s"
+		}
 		sh := exec.Command(bin, "shrink", "-file", path, "-budget", budget)
 		sh.Stderr = os.Stderr
 		sh.Env = append(os.Environ(), "GORACE=halt_on_error=0 exitcode=0 log_path="+raceLogPrefix())
